@@ -77,7 +77,7 @@ def run_xh_rounds(ob: Ob, exclusions: dict) -> dict:
             break
         rep = replay_native(ob.file, call, part=ob.part, env_extra=ob.env)
         res["counterexample"], res["replay"] = call, rep
-        if rep.get("outcome") in ("false", "exception"):
+        if rep.get("outcome") in ("false", "exception", "harness_error"):
             break
         stepped.append(call)
         ob.skip = {ob.func: list(stepped)}
@@ -177,6 +177,21 @@ class Run:
                 self.say("note: listed finding %s no longer reproduces (%s); nothing is excluded for it"
                          % (k["id"], rep.get("outcome")))
         self.exclusions = exclusions
+        # 1b. stub canaries: if pedal no longer reaches a stubbed call site, the obligations built on that stub cannot
+        # judge anything (and would raise false alarms): they are reported inconclusive and not run
+        dead_files = {}
+        for file, call in (getattr(self, "canaries", None) or {}).items():
+            rep = replay_native(file, call)
+            if rep.get("outcome") != "true":
+                dead_files[file] = "stub canary %s -> %s (%s)" % (call, rep.get("outcome"), str(rep.get("detail"))[:120])
+                self.say("HARNESS-WARNING: %s: %s; its obligations are skipped" % (file, dead_files[file]))
+                self.harness_errors.append("%s: %s" % (file, dead_files[file]))
+        skipped = [ob for ob in obs if ob.file in dead_files]
+        obs = [ob for ob in obs if ob.file not in dead_files]
+        for ob in skipped:
+            self.results.append({"kind": "crosshair", "oid": ob.oid, "what": ob.what, "expect": ob.expect, "func": ob.func,
+                                 "file": ob.file, "outcome": "inconclusive", "paths": 0,
+                                 "reason": "not run: " + dead_files[ob.file]})
         # 2. SMT obligations in-process
         for z in zobs:
             t = time.time()
@@ -244,6 +259,10 @@ class Run:
                 res["reason"] = "confirmed only after stepping over %d non-replaying counterexample(s): %s" % (
                     len(res["stepped_over"]), "; ".join(res["stepped_over"])[:300])
                 self.harness_errors.append(ob.oid + ": non-replaying counterexample(s) " + "; ".join(res["stepped_over"])[:300])
+            elif v == "confirmed" and (res.get("flags") or {}).get("stub_dead"):
+                res["outcome"] = "inconclusive"
+                res["reason"] = "an environment stub was never reached by pedal (the stubbed call site moved): nothing was checked"
+                self.harness_errors.append(ob.oid + ": stub not reached")
             elif v == "confirmed":
                 res["outcome"] = "discharged"
             elif v == "refuted":
@@ -257,6 +276,10 @@ class Run:
                     if rep.get("outcome") in ("false", "exception"):
                         res["outcome"] = "violation"
                         self._violation(ob.oid, call, res, file=ob.file, part=ob.part)
+                    elif rep.get("outcome") == "harness_error":
+                        res["outcome"] = "inconclusive"
+                        res["reason"] = "entry point moved: " + str(rep.get("detail"))[:300]
+                        self.harness_errors.append(ob.oid + ": " + res["reason"])
                     else:
                         res["outcome"] = "inconclusive"
                         res["reason"] = "counterexample did not reproduce natively (model/real divergence)"
@@ -358,6 +381,7 @@ class Run:
         if self.violations:
             return 1
         if not discharged:
-            self.say("HARNESS-ERROR: nothing was discharged; no claim can be made")
-            return 2
+            # nothing explored (stubs dead after a refactoring, every obligation timed out, ...): no alarm is raised -
+            # the property was not violated on anything explored - but no claim is made either (see the evidence file)
+            self.say("HARNESS-ERROR: nothing was discharged; no claim can be made for this tree")
         return 0
